@@ -3062,3 +3062,58 @@ func checkRound8C19(c *Ctx) {
 		r.Unk("C19.inputrc-dump-untruncated", "keymap.printBindsInputrc", "-", "anchor not found")
 	}
 }
+
+// ---- C03.fallback-keeps-later-keys (round 8): the shorter bind takes its own keys only
+func checkFallbackKeepsLaterKeys(c *Ctx, rule string) {
+	p, r := c.P, c.R
+	r.Rule(rule, "K3", "when the dispatcher falls back to the shorter bind it had remembered (active = prefixed) because the next key rules the longer binds out, the keys it reports as matched are cut back to those of the shorter bind (a slice of the matched keys bounded by a length recorded when the bind was remembered): the keys that went on matching longer sequences are handed back with the key that ruled them out — with `ab` and `abcd` bound, `abcx` runs `ab` and must still deliver `c`", 1)
+	DK := p.Func("(*keymap.Engine).dispatchKeys")
+	if DK == nil || DK.Signature.Results().Len() < 4 {
+		r.Unk(rule, "(*keymap.Engine).dispatchKeys", "-", "anchor not found")
+		return
+	}
+	r.Fn(fnName(DK))
+	n := 0
+	eachInstr(DK, func(in ssa.Instruction) {
+		st, ok := isFieldStore(in, "keymap.Engine", "active")
+		if !ok || !isFieldLoad(st.Val, "keymap.Engine", "prefixed") {
+			return
+		}
+		n++
+		key := siteKey(DK, "fallback", n-1)
+		// the returns reachable from the fallback without another store to active
+		good, found := true, false
+		eachInstr(DK, func(x ssa.Instruction) {
+			ret, isR := x.(*ssa.Return)
+			if !isR || len(ret.Results) < 4 {
+				return
+			}
+			if pathAvoiding(DK, st, func(y ssa.Instruction) bool { return y == x }, func(y ssa.Instruction) bool {
+				s2, is := isFieldStore(y, "keymap.Engine", "active")
+				return is && s2 != st
+			}) == nil {
+				return
+			}
+			found = true
+			cut := dependsOn(ret.Results[3], func(v ssa.Value) bool {
+				sl, isS := v.(*ssa.Slice)
+				if !isS || sl.High == nil || !instrDominates(st, sl) {
+					return false
+				}
+				// bounded by a field of the engine (the recorded length), not by a constant
+				return dependsOn(sl.High, func(w ssa.Value) bool {
+					t, _, isF := fieldRead(w)
+					_ = t
+					return isF
+				})
+			})
+			if !cut {
+				good = false
+			}
+		})
+		r.Check(found && good, rule, key, p.IPos(st), "the matched keys are cut back to those of the remembered bind", "falling back to the shorter bind, dispatchKeys reports every key read so far as matched: the keys typed after the shorter sequence, which only matched the longer binds now ruled out, are consumed with it and never dispatched (`ab`/`abcd` bound: `abcx` loses `c`)")
+	})
+	if n == 0 {
+		r.Unk(rule, fnName(DK)+":fallback", p.Pos(DK.Pos()), "dispatchKeys no longer falls back to the remembered bind: anchor changed")
+	}
+}
